@@ -80,7 +80,7 @@ def oracle(ck, tier, deep):
         c2c = int(rng.integers(max(2, cols - 5), min(2 * cols - 3, cols + 4) + 1))
         im = symmetric_image(rng, rows, cols, c2r, c2c)
         true = (c2r / 2, c2c / 2)
-        scale = float(rng.choice([1e-12, 1e-9, 1e-3, 0.5, 7.0, 1e4, 1e9]))       # any positive constant, small physical units included
+        scale = float(rng.choice([1e-12, 1e-9, 1e-3, 0.5, 7.0, 1e4, 1e9, 1e-250, 1e-170, 1e160, 1e200]))       # any positive constant
         ck.count(("S.sym", rows % 2, cols % 2, c2r % 2, c2c % 2), suite="S.symmetric")
         rep = dict(shape=[rows, cols], centre=list(true), image=im.tolist())
         for meth, tol in (("com", 1e-10), ("convolution", 0.0)):
@@ -167,7 +167,7 @@ def oracle(ck, tier, deep):
         try:
             got = quiet(find_origin, im, "gaussian")
             got2 = quiet(find_origin, np.roll(np.roll(im, 3, axis=0), -2, axis=1), "gaussian")
-            got_s = quiet(find_origin, im * 40.0, "gaussian")
+            got_s = quiet(find_origin, im * float(rng.choice([40.0, 1e-8, 1e-12, 1e-30, 1e26, 1e60])), "gaussian")
         except Exception as e:
             ck.violation(dict(site="find_origin", method="gaussian", clause="exception"), rep, f"{type(e).__name__}: {e}")
             continue
